@@ -1,5 +1,5 @@
 import UralModel.Model.Redirect
-import UralModel.Lemmas.StrSplit
+import UralModel.Lemmas.StrSplit20
 /-! Helper lemmas for C15: what the hand-written regex matchers return is a piece of the
 input. -/
 namespace Ural
@@ -89,7 +89,7 @@ theorem keyValueFor_spec (key : List Char) (s k v : Str) (h : keyValueFor key s 
         · rw [← hv']; exact hv
         · rw [← hv']
           intro hm'
-          have := mem_takeWhile _ _ _ hm'
+          have := mem_takeWhile_s20 _ _ _ hm'
           simp at this
         · cases hd : r.dropWhile (· ≠ '&') with
           | nil => exact Or.inl rfl
